@@ -308,6 +308,31 @@ fn tables_k(case: &Value, inputs: &Value) -> Value {
     json!({"in_table": in_table, "implemented": implemented, "checks": Value::Object(checks)})
 }
 
+// parse_sexp with locations
+fn parse_k(_case: &Value, inputs: &Value) -> Value {
+    use chialisp::compiler::sexp::{parse_sexp, SExp as R};
+    use chialisp::compiler::srcloc::Srcloc;
+    fn locj(l: &Srcloc) -> (Value, String) {
+        let e = match &l.until { Some(u) => json!([u.line, u.col]), None => json!([l.line, l.col + 1]) };
+        (json!([[l.line, l.col], e]), l.file.to_string())
+    }
+    fn tj(v: &R) -> Value {
+        let (loc, file) = locj(&v.loc());
+        match v {
+            R::Cons(_, a, b) => json!({"loc": loc, "file": file, "cons": [tj(a), tj(b)]}),
+            R::Nil(_) => json!({"loc": loc, "file": file, "leaf": "Nil"}),
+            R::Integer(_, _) => json!({"loc": loc, "file": file, "leaf": "Integer"}),
+            R::QuotedString(_, _, _) => json!({"loc": loc, "file": file, "leaf": "QuotedString"}),
+            R::Atom(_, _) => json!({"loc": loc, "file": file, "leaf": "Atom"}),
+        }
+    }
+    let b = bytes_of(&inputs["b"]);
+    match parse_sexp(Srcloc::start("*t*"), b.iter().copied()) {
+        Ok(v) => json!({"ok": v.iter().map(|x| tj(x)).collect::<Vec<Value>>()}),
+        Err((l, _)) => { let (loc, file) = locj(&l); json!({"err": {"loc": loc, "file": file}}) }
+    }
+}
+
 // assemble(text) -> tree (used to evaluate constant patterns natively)
 fn assemble_k(_case: &Value, inputs: &Value) -> Value {
     let mut a = Allocator::new();
@@ -322,6 +347,7 @@ pub fn dispatch(kernel: &str, case: &Value, inputs: &Value) -> Value {
         "assemble" => assemble_k(case, inputs),
         "int_from_bytes" => int_from_bytes_k(case, inputs),
         "decode" => decode_k(case, inputs),
+        "parse" => parse_k(case, inputs),
         "tables" => tables_k(case, inputs),
         "eqhash" => eqhash_k(case, inputs),
         "conv" => conv_k(case, inputs),
